@@ -156,6 +156,17 @@ def prove(ob, axioms=(), timeout_ms=60000, use_external=True):
     ob.hyps = [_beta(h) for h in ob.hyps]
     ob.goal = _beta(ob.goal)
     hyps = [_beta(a) for a in axioms] + ob.hyps
+    if ob.expect_sat and ob.meta.get("alternatives"):
+        alts = ob.meta.pop("alternatives")
+        first = prove(ob, axioms, timeout_ms, use_external)
+        if first.status == "discharged":
+            return first
+        for (pc, goal) in alts:
+            r = prove(Obligation(ob.name, pc, goal, kind=ob.kind, props=ob.props, expect_sat=True), axioms, timeout_ms, use_external)
+            if r.status == "discharged":
+                r.meta = ob.meta
+                return r
+        return first
     if ob.expect_sat:
         # cover: some state satisfying the path condition and the predicate exists.  A strengthening that is
         # sat proves reachability, so when the plain query is unknown (quantified hypotheses) it is retried
@@ -318,63 +329,144 @@ def _finite_model(ob, hyps, neg, nl, budget_ms, t0):
 def prove_groups(groups, axioms, timeout_ms, workers):
     """groups: list of lists of obligations; the obligations of one group are proved in order and the
     discharged goals of a group are added as hypotheses of its later members (lemma chaining).
-    -> list of Result in the order of the flattened input."""
-    import pickle
+    -> list of Result in the order of the flattened input.
 
-    def run_group(g):
-        out, proved = [], []
-        for ob in g:
+    Workers are forked processes that stream one pickled record per obligation into a file.  The parent watches the
+    files: a worker that spends more than 3 x budget + 60 s on one obligation (a solver call that ignores its
+    timeout) is killed, that obligation is reported undecided, and a new worker takes over the rest."""
+    import pickle
+    import shutil
+    import signal
+    import tempfile
+
+    def run_group_stream(gi, g, f, start_at=0, proved=None):
+        proved = list(proved or [])
+        for j, ob in enumerate(g):
+            if j < start_at:
+                continue
+            pickle.dump(("start", gi, j, time.time()), f)
+            f.flush()
             if proved:
                 ob.hyps = ob.hyps + proved
             r = prove(ob, axioms, timeout_ms)
-            out.append(r)
             if r.status == "discharged" and ob.meta.get("chain") is not None and not ob.expect_sat:
                 proved.append(ob.goal)
-        return out
+            pickle.dump(("done", gi, j, (r.status, r.backend, r.secs, r.model, r.reason, r.smt2, ob.meta)), f)
+            f.flush()
+
     n = len(groups)
+    total = sum(len(g) for g in groups)
     workers = max(1, min(workers, n))
-    if workers == 1:
-        return [r for g in groups for r in run_group(g)]
-    # static round-robin partition, largest groups first
+    results = {}          # (gi, j) -> tuple
+    if workers == 1 and total <= 3:
+        out = []
+        for g in groups:
+            proved = []
+            for ob in g:
+                if proved:
+                    ob.hyps = ob.hyps + proved
+                r = prove(ob, axioms, timeout_ms)
+                out.append(r)
+                if r.status == "discharged" and ob.meta.get("chain") is not None and not ob.expect_sat:
+                    proved.append(ob.goal)
+        return out
     order = sorted(range(n), key=lambda i: -len(groups[i]))
-    parts = [order[w::workers] for w in range(workers)]
-    import tempfile
-    import shutil
+    queue = [order[w::workers] for w in range(workers)]          # per-worker list of group indices
     tmpd = tempfile.mkdtemp(prefix="verif-prove-", dir=os.environ.get("VERIF_SCRATCH"))
-    procs = []
-    got = {}
-    try:
-        for wi, part in enumerate(parts):
-            out_path = os.path.join(tmpd, "%d.pkl" % wi)
-            pid = os.fork()
-            if pid == 0:
-                try:
-                    payload = {}
-                    for gi in part:
-                        payload[gi] = [(r.status, r.backend, r.secs, r.model, r.reason, r.smt2, groups[gi][j].meta)
-                                       for j, r in enumerate(run_group(groups[gi]))]
-                    data = pickle.dumps(payload)
-                except BaseException as e:      # pragma: no cover
-                    data = pickle.dumps({"__error__": repr(e)})
-                with open(out_path, "wb") as f:
-                    f.write(data)
-                os._exit(0)
-            procs.append((pid, out_path))
-        for pid, out_path in procs:
-            os.waitpid(pid, 0)
+    limit = 3 * timeout_ms / 1000.0 + 60
+    live = {}             # pid -> dict(path, part, offset)
+    serial = [0]
+
+    def spawn(part, skip):
+        """part: list of group indices; skip: set of (gi, j) already decided"""
+        serial[0] += 1
+        path = os.path.join(tmpd, "%d.pkl" % serial[0])
+        open(path, "wb").close()
+        pid = os.fork()
+        if pid == 0:
             try:
-                with open(out_path, "rb") as f:
-                    payload = pickle.loads(f.read())
-            except Exception:
-                payload = {"__error__": "worker died"}
-            if "__error__" in payload:
-                raise RuntimeError("prover worker failed: %s" % payload["__error__"])
-            got.update(payload)
+                with open(path, "ab") as f:
+                    for gi in part:
+                        g = groups[gi]
+                        start = 0
+                        while start < len(g) and (gi, start) in skip:
+                            start += 1
+                        # chaining hypotheses of already-decided members are not re-derived after a restart
+                        run_group_stream(gi, g, f, start_at=start)
+                    pickle.dump(("end",), f)
+            except BaseException as e:      # pragma: no cover
+                try:
+                    with open(path, "ab") as f:
+                        pickle.dump(("error", repr(e)), f)
+                except Exception:
+                    pass
+            os._exit(0)
+        live[pid] = dict(path=path, part=part, pos=0, current=None, ended=False)
+
+    def drain(info):
+        with open(info["path"], "rb") as f:
+            f.seek(info["pos"])
+            while True:
+                try:
+                    rec = pickle.load(f)
+                except Exception:
+                    break
+                info["pos"] = f.tell()
+                if rec[0] == "start":
+                    info["current"] = (rec[1], rec[2], rec[3])
+                elif rec[0] == "done":
+                    results[(rec[1], rec[2])] = rec[3]
+                    info["current"] = None
+                elif rec[0] == "end":
+                    info["ended"] = True
+                elif rec[0] == "error":
+                    info["error"] = rec[1]
+                    info["ended"] = True
+    try:
+        for part in queue:
+            if part:
+                spawn(part, set())
+        while live:
+            time.sleep(0.05)
+            for pid in list(live):
+                info = live[pid]
+                drain(info)
+                done_pid, _ = os.waitpid(pid, os.WNOHANG)
+                if done_pid == pid:
+                    drain(info)
+                    del live[pid]
+                    if not info["ended"] or info.get("error"):
+                        # worker died: everything it had not reported is undecided
+                        for gi in info["part"]:
+                            for j, ob in enumerate(groups[gi]):
+                                results.setdefault((gi, j), ("undecided", "z3-api", 0.0, None,
+                                                             "prover worker died: %s" % info.get("error", "killed"), None, ob.meta))
+                    continue
+                cur = info["current"]
+                if cur is not None and time.time() - cur[2] > limit:
+                    try:
+                        os.kill(pid, signal.SIGKILL)
+                    except OSError:
+                        pass
+                    os.waitpid(pid, 0)
+                    drain(info)
+                    del live[pid]
+                    gi, j, _t = cur
+                    results[(gi, j)] = ("undecided", "z3-api", limit, None,
+                                        "solver call exceeded %.0f s and was killed" % limit, None, groups[gi][j].meta)
+                    spawn(info["part"], set(results))
     finally:
+        for pid in list(live):
+            try:
+                os.kill(pid, signal.SIGKILL)
+                os.waitpid(pid, 0)
+            except OSError:
+                pass
         shutil.rmtree(tmpd, ignore_errors=True)
     out = []
     for gi, g in enumerate(groups):
-        for ob, tup in zip(g, got[gi]):
+        for j, ob in enumerate(g):
+            tup = results.get((gi, j)) or ("undecided", "z3-api", 0.0, None, "no result reported", None, ob.meta)
             status, backend, secs, model, reason, smt2, meta = tup
             ob.meta = meta
             r = Result(ob, status, backend, secs, model=model, reason=reason)
